@@ -14,6 +14,8 @@
 #define __CPROVER_assume(c) ((void)0)
 #endif
 typedef unsigned long size_t;
+#define IMP(a, b) (!(a) || (b))
+#define IFF(a, b) (((a) != 0) == ((b) != 0))
 
 #define VERIF_MINMAX(T, S)                                                        \
   static inline const T *verif_std_min_##S(const T *a, const T *b)                \
